@@ -97,9 +97,10 @@ impl GenCfg {
             keys: vec![],
             errors: false,
             strict_bool: rng.chance(1, 4),
-            max_facts: 5,
-            max_rules: 2,
-            max_checks: 2,
+            // sizes vary per run (swarm style): most runs are small, some are dense
+            max_facts: *rng.pick(&[2usize, 5, 5, 5, 9]),
+            max_rules: *rng.pick(&[1usize, 2, 2, 2, 4]),
+            max_checks: *rng.pick(&[1usize, 2, 2, 2, 4]),
             strings,
             ints,
             allow_previous: true,
